@@ -1,6 +1,8 @@
 import re
 from re import Pattern
 
+from flowmark.linewrapping.tag_handling import TEMPLATE_TAG_PATTERN
+
 ELLIPSIS_PATTERN: Pattern[str] = re.compile(
     r"(^|[\w\"\'“‘])(\s*)(\.\.\.)([.,:;?!)\-—\"\'”’]?)(\s*)",
     re.MULTILINE,
@@ -22,7 +24,14 @@ def ellipses(text: str) -> str:
       the punctuation.
     """
 
+    # Like smart quotes, never touch the inside of template tags and HTML comments.
+    tag_spans = [m.span() for m in TEMPLATE_TAG_PATTERN.finditer(text)]
+
     def replace_match(match: re.Match[str]) -> str:
+        dots_pos = match.start(3)
+        if any(start <= dots_pos < end for start, end in tag_spans):
+            return match.group(0)
+
         prefix = match.group(1)
         spaces_before = match.group(2)
         punct = match.group(4)
